@@ -336,7 +336,7 @@ pub fn run(ctx: &Ctx, replay: Option<&J>) -> CheckResult {
         let _ = unhex("");
         return CheckResult { evidence: ev, rule, assumptions, violations: vs };
     }
-    let per_type = ctx.n(1200, 40_000);
+    let per_type = ctx.n(10_000, 300_000);
     let msm_types: Vec<&TypeCorpus> = corp.types.iter().filter(|t| Cons::of_number(t.number).is_some()).collect();
     let parts: Vec<(Evidence, Vec<Violation>)> = msm_types
         .par_iter()
@@ -424,7 +424,7 @@ pub fn run(ctx: &Ctx, replay: Option<&J>) -> CheckResult {
                 run_spec(&spec, ps, &mut ev, &mut vs, "random-shape");
             }
             // invalid classes
-            for rep in 0..ctx.n(12, 300) {
+            for rep in 0..ctx.n(60, 1500) {
                 for d in DEFECTS {
                     let seed = rng.next_u64();
                     ev.evaluations += 1;
